@@ -26,7 +26,8 @@ class Contract:
 
 
 ELEMENTWISE = {'sqrt', 'abs', 'log', 'exp', 'square', 'nan_to_num', 'isnan', 'isfinite', 'logical_not', 'sign',
-               'asarray', 'array', 'copy', 'float64', 'astype', 'maximum', 'minimum', 'negative', 'cumsum', 'real'}
+               'asarray', 'array', 'copy', 'float64', 'astype', 'maximum', 'minimum', 'negative', 'cumsum', 'real', 'ppf', 'cdf',
+               'tanh', 'arctanh', 'log1p', 'expm1', 'clip', 'round', 'floor', 'ceil'}
 REDUCERS = {'sum', 'mean', 'nansum', 'nanmean', 'std', 'nanstd', 'var', 'nanvar', 'min', 'max', 'nanmin', 'nanmax',
             'all', 'any', 'prod', 'median', 'nanmedian'}
 
@@ -44,7 +45,9 @@ def is_def(r: str) -> bool:
 
 
 class AxisEval:
-    def __init__(self, ctx, q: str, contracts: Dict[str, Contract], res: Optional[FuncResult] = None):
+    def __init__(self, ctx, q: str, contracts: Dict[str, Contract], res: Optional[FuncResult] = None,
+                 method_roles: Optional[Dict[str, Tuple[str, ...]]] = None):
+        self.method_roles = method_roles or {}      # roles of `<anything>.name()` (argument-less accessor methods)
         self.ctx = ctx
         self.prog = ctx.prog
         self.q = q
@@ -447,6 +450,8 @@ class AxisEval:
             return None
         is_np = isinstance(fn, ast.Attribute) and isinstance(fn.value, ast.Name) and fn.value.id in ('np', 'numpy')
         is_method = isinstance(fn, ast.Attribute) and not is_np
+        if is_method and nm in self.method_roles and not e.args and not e.keywords:
+            return tuple(self.method_roles[nm])
         if nm == 'einsum' and e.args and isinstance(e.args[0], ast.Constant) and isinstance(e.args[0].value, str):
             return self._einsum(e, depth)
         if nm in REDUCERS:
@@ -476,7 +481,7 @@ class AxisEval:
                 return (fr or '?', '?')
             return None
         if nm in ELEMENTWISE and (e.args or is_method):
-            return self.roles(fn.value if is_method and not e.args or (is_method and nm == 'astype') else e.args[0], depth + 1)
+            return self.roles(fn.value if is_method and not e.args or (is_method and nm in ('astype', 'clip', 'round')) else e.args[0], depth + 1)
         if nm == 'apply_along_axis' and len(e.args) >= 3:
             return self.roles(e.args[2], depth + 1)
         if nm == 'outer' and len(e.args) == 2:
@@ -488,6 +493,11 @@ class AxisEval:
             shp = e.args[0]
             elts = shp.elts if isinstance(shp, (ast.Tuple, ast.List)) else [shp]
             return tuple(self.size_role(x, depth + 1) or '?' for x in elts)
+        if nm in ('uniform', 'normal', 'standard_normal', 'random', 'random_sample', 'integers', 'randint', 'choice'):
+            sz = next((k.value for k in e.keywords if k.arg == 'size'), None)
+            if isinstance(sz, (ast.Tuple, ast.List)):
+                return tuple(self.size_role(x, depth + 1) or '?' for x in sz.elts)
+            return None
         if nm in ('zeros_like', 'ones_like', 'empty_like') and e.args:
             return self.roles(e.args[0], depth + 1)
         if nm == 'transpose' and (e.args or is_method):
@@ -508,14 +518,25 @@ class AxisEval:
             if src is not None and k is not None and 0 <= k <= len(src):
                 return tuple(src[:k]) + ('1',) + tuple(src[k:])
             return None
+        if nm in ('diag', 'diagonal') and (e.args or is_method):
+            src = self.roles(fn.value if is_method else e.args[0], depth + 1)
+            if src is not None and len(src) == 2:
+                return (src[0],) if src[0] == src[1] else ('?',)
+            if src is not None and len(src) == 1 and nm == 'diag':
+                return (src[0], src[0])
+            return None
         if nm == 'len':
             return ()
         return None
 
     def _einsum(self, e: ast.Call, depth) -> Roles:
         spec = e.args[0].value.replace(' ', '')
-        if '->' not in spec or '.' in spec:
+        if '.' in spec:
             return None
+        if '->' not in spec:
+            # implicit mode: the output carries, in alphabetical order, the letters that occur exactly once
+            flat = spec.replace(',', '')
+            spec = spec + '->' + ''.join(sorted(ch for ch in set(flat) if flat.count(ch) == 1))
         ins, out = spec.split('->')
         ins = ins.split(',')
         ops = e.args[1:]
